@@ -5,6 +5,7 @@ package p20
 import (
 	"os"
 	"strings"
+	"sync"
 
 	"verifharness/core"
 )
@@ -38,6 +39,9 @@ func (P) Exec(line string) string {
 	if len(f) < 2 || f[0] != "C20" {
 		return "bad-op"
 	}
+	if f[1] == "par" {
+		return execPar(line)
+	}
 	switch {
 	case strings.HasPrefix(f[1], "bloom"):
 		return execBloom(f[1:])
@@ -51,4 +55,74 @@ func (P) Generate(g *core.Gen) {
 	genGcs(g)
 	genBloom(g)
 	genPmt(g)
+	genPar(g)
+}
+
+// ---- hidden shared state: independent cases run concurrently
+//
+//	C20 par <sub-line> ;; <sub-line> ;; ...
+//
+// every sub-line is a complete C20 line; each runs in its own goroutine, all released together, each
+// repeated parReps times so that the executions overlap; a goroutine answers "unstable" when its
+// repetitions disagree. The Lean driver answers the sub-lines one after the other.
+
+const parReps = 12
+
+var parPool []string
+
+func rec(g *core.Gen, class string, nontrivial bool, line string) {
+	g.Case(class, nontrivial, line)
+	if len(line) < 6000 && !strings.Contains(line, " ;; ") {
+		parPool = append(parPool, line)
+	}
+}
+
+func execOne(sub string) (out string) {
+	defer func() {
+		if r := recover(); r != nil {
+			out = "panic"
+		}
+	}()
+	return P{}.Exec(sub)
+}
+
+func execPar(line string) string {
+	subs := strings.Split(strings.TrimPrefix(line, "C20 par "), " ;; ")
+	outs := make([]string, len(subs))
+	var start, done sync.WaitGroup
+	start.Add(1)
+	for i := range subs {
+		done.Add(1)
+		go func(i int) {
+			defer done.Done()
+			start.Wait()
+			first := execOne(subs[i])
+			for k := 1; k < parReps; k++ {
+				if execOne(subs[i]) != first {
+					first = "unstable"
+					break
+				}
+			}
+			outs[i] = first
+		}(i)
+	}
+	start.Done()
+	done.Wait()
+	return strings.Join(outs, " ;; ")
+}
+
+func genPar(g *core.Gen) {
+	r := g.R
+	if len(parPool) == 0 {
+		return
+	}
+	for i := 0; i < g.N(60, 2000); i++ {
+		k := 8 + r.Intn(5)
+		subs := make([]string, k)
+		for j := range subs {
+			subs[j] = parPool[r.Intn(len(parPool))]
+		}
+		g.Case("par", true, "C20 par "+strings.Join(subs, " ;; "))
+	}
+	parPool = nil
 }
